@@ -57,7 +57,7 @@ pub fn mutated_input(ctx: &Ctx, bytes: &[u8]) -> (String, &'static str) {
     // base program
     let base_len = (bytes.len() * 2 / 3).max(1).min(bytes.len());
     let base = if c.boolean() {
-        let (p, _) = gen_program(&bytes[bytes.len() - base_len..], &GenCfg { size: ctx.tier.pick(20, 40), max_defs: 2, max_main_params: 7, ..GenCfg::default() });
+        let (p, _) = gen_program(&bytes[bytes.len() - base_len..], &GenCfg { size: ctx.tier.pick(20, 40), max_defs: 2, max_main_params: 7, adversarial: true, ..GenCfg::default() });
         emit_program(&p)
     } else {
         let mut g = SynGen::new(&bytes[bytes.len() - base_len..], SynCfg { size: ctx.tier.pick(16, 30), avoid_zero_operand: false });
